@@ -85,6 +85,9 @@ ALL_SPECS = [(p, n) for p in _subsets(TERMS) for n in _subsets(TERMS) if p or n]
 SMALL = [([1, 2], []), ([2, 3], []), ([1, STALE], []), ([3, MISS], []), ([2], [1]), ([1], [3]),
          ([2, 3], [1]), ([1], [2, 3]), ([1, 2], [2]), ([], [2]), ([STALE], [MISS, 3]), ([1, 2, 3], [])]
 ANCHORS = ["top", 2, "bottom"]
+# term lists that mention an id more than once: a term list denotes a SET of elements
+REPEATS = [([1, 1, 2], []), ([2, 2], []), ([2], [1, 1]), ([3, 1, 3], [2, 2]), ([1, STALE, 1, STALE], []),
+           ([MISS, 2, 2], [3]), ([1, 2], [3, 3, MISS, MISS])]
 
 
 def _ins(spec, k=1, anchor="bottom"):
@@ -98,6 +101,10 @@ def _cfg_single(dim):
 
 def _cfg_small(dim):
     return [{dim: [_ins(sp, 1, ANCHORS[i % 3])]} for i, sp in enumerate(SMALL)]
+
+
+def _cfg_repeats(dim):
+    return [{dim: [_ins(sp, 1, ANCHORS[i % 3])]} for i, sp in enumerate(REPEATS)]
 
 
 def _cfg_pair(dim):
@@ -139,6 +146,10 @@ SPACES = {
     "view_rows": ("cat_x_cat", _cfg_styles("rows"), 2, 3),          # same lists defined on the variable view
     "view_cols": ("cat_x_cat_T", _cfg_styles("cols"), 2, 3),
     "view_strand": ("cat_1d", _cfg_styles("rows"), 2, 4),
+    "repeat_rows": ("cat_x_cat", _cfg_repeats("rows"), 2, 3),
+    "repeat_cols": ("cat_x_cat_T", _cfg_repeats("cols"), 2, 3),
+    "repeat_strand": ("cat_1d", _cfg_repeats("rows"), 2, 4),
+    "repeat_wave_rows": ("date_x_cat", _cfg_repeats("rows"), 2, 3),
     "pair_rows_cat_x_cat": ("cat_x_cat", _cfg_pair("rows"), 1, 2),
     "pair_strand": ("cat_1d", _cfg_pair("rows"), 2, 3),
     "both_cat3_x_cat3": ("cat3_x_cat3", _cfg_both(), 1, 2),
